@@ -386,6 +386,8 @@ pub fn stub_set_len(f: &std::fs::File, size: u64) -> std::io::Result<()> {
 	fev(3, fd_of(f));
 	Ok(())
 }
+/// dup(2): another handle on the same open file (harness fds are small integers; the duplicate is fd + 100)
+pub fn stub_try_clone(f: &std::fs::File) -> std::io::Result<std::fs::File> { Ok(vc::raw_file(fd_of(f) + 100)) }
 pub fn stub_file_seek(f: &mut std::fs::File, _pos: std::io::SeekFrom) -> std::io::Result<u64> {
 	fev(6, fd_of(f));
 	Ok(0)
@@ -439,6 +441,7 @@ crate::verif_env! {
 #[kani::proof]
 #[kani::unwind(6)]
 #[kani::stub(std::fs::File::sync_data, stub_sync_data)]
+#[kani::stub(std::fs::File::try_clone, stub_try_clone)]
 #[kani::stub(<std::os::fd::OwnedFd as std::ops::Drop>::drop, crate::verif_common::fd_drop_noop)]
 fn c12_o1_flush_one_syncs_before_handover() {
 	fev_reset();
